@@ -1,0 +1,10 @@
+//go:build verif
+
+// Contracts for the deductive verifier under /verif (comment-only file).
+package utils
+
+// IsSpace: exactly the four RFC 8259 white-space bytes, for every byte value
+// (the shift 1<<c yields 0 for c >= 64).
+//@ pure func isSp(c byte) bool = c == 0x20 || c == 0x09 || c == 0x0d || c == 0x0a
+//@ func IsSpace props C02,C01 mode bv
+//@   ensures result == isSp(c)
